@@ -243,6 +243,9 @@ func (store *fileStore) setSession() error {
 	if err != nil {
 		return fmt.Errorf("unable to marshal session time to file: %s: %s", store.sessionFname, err.Error())
 	}
+	if err := verifFail("session:write"); err != nil {
+		return fmt.Errorf("unable to write to file: %s: %s", store.sessionFname, err.Error())
+	}
 	if _, err := store.sessionFile.Write(data); err != nil {
 		return fmt.Errorf("unable to write to file: %s: %s", store.sessionFname, err.Error())
 	}
@@ -261,6 +264,9 @@ func (store *fileStore) setSeqNum(f *os.File, seqNum int) error {
 	defer store.fileMu.Unlock()
 	if _, err := f.Seek(0, io.SeekStart); err != nil {
 		return fmt.Errorf("unable to rewind file: %s: %s", f.Name(), err.Error())
+	}
+	if err := verifFail("seqnum:write"); err != nil {
+		return fmt.Errorf("unable to write to file: %s: %s", f.Name(), err.Error())
 	}
 	if _, err := fmt.Fprintf(f, "%019d", seqNum); err != nil {
 		return fmt.Errorf("unable to write to file: %s: %s", f.Name(), err.Error())
@@ -336,11 +342,17 @@ func (store *fileStore) SaveMessage(seqNum int, msg []byte) error {
 	if _, err := store.headerFile.Seek(0, io.SeekEnd); err != nil {
 		return fmt.Errorf("unable to seek to end of file: %s: %s", store.headerFname, err.Error())
 	}
+	if err := verifFail("save:header-write"); err != nil {
+		return fmt.Errorf("unable to write to file: %s: %s", store.headerFname, err.Error())
+	}
 	if _, err := fmt.Fprintf(store.headerFile, "%d,%d,%d\n", seqNum, offset, len(msg)); err != nil {
 		return fmt.Errorf("unable to write to file: %s: %s", store.headerFname, err.Error())
 	}
 	verifPoint("save:header-written")
 
+	if err := verifFail("save:body-write"); err != nil {
+		return fmt.Errorf("unable to write to file: %s: %s", store.bodyFname, err.Error())
+	}
 	if _, err := store.bodyFile.Write(msg); err != nil {
 		return fmt.Errorf("unable to write to file: %s: %s", store.bodyFname, err.Error())
 	}
